@@ -190,7 +190,7 @@ func init() {
 		Level: "model_checking",
 		Rule: "(a) documented shapes: for each of the 70 worked examples of the attachment-point documentation (snapshot of gendst/data/positions.go), every subset of <=2 (quick) / all subsets (thorough) of the example's points x kind {block, line, newline}, " +
 			"placed directly on the documented node's decoration fields of a tree parsed from the comment-free text: the token+comment sequence of the print must equal that of the documentation text with exactly those comments kept (block), " +
-			"or each comment exactly once with the token stream unchanged (line, newline); (b) every node instance of the corpus x every point singly, with two comments, and all points at once (block comments): exactly once, token stream unchanged, " +
+			"or each comment exactly once with the token stream unchanged (line, newline); (b) every node instance of the corpus x every point singly, with two block comments, with a block comment followed by a line comment or by a two-line block comment (the first comment must be placed as if alone), and all points at once (block comments): exactly once, token stream unchanged, " +
 			"Start directly before the node's first token, End directly after its last, interior points inside and in declaration order; (c) every top-level declaration of 21 object-bearing sources replaced by its Clone or removed, restored with Extras: same output as without Extras (each comment once); (d) helper laws for every node type: dstutil.Decorations lists exactly the reflection-derived points in render order, Decorations() aliases the node's storage; " +
 			"state = (example|instance, point set, kind); non-trivial = at least one decoration placed",
 		Assumptions: []string{"the worked examples in decorations-types-generated.go (generated from gendst/data/positions.go, snapshotted) are the documentation of the attachment points", "',' and ';' are ignored when locating comments: go/printer emits them without positions"},
@@ -321,13 +321,19 @@ func runC04(ctx *core.Ctx, unit int) {
 				ctx.R.Transitions++
 				ctx.Eval(cs, c04Check(cs))
 				if pi >= 0 {
-					cs.Point = pi + 1000 // two comments on this point
-					ctx.CountState(true)
-					ctx.R.Transitions++
-					ctx.Eval(cs, c04Check(cs))
+					// two block comments on this point; a block comment followed by a line comment; a block comment
+					// followed by a block comment spanning two lines
+					for _, v := range []int{1000, 2000, 3000} {
+						cs.Point = pi + v
+						ctx.CountState(true)
+						ctx.R.Transitions++
+						ctx.Eval(cs, c04Check(cs))
+					}
 				}
 			}
 		}
+		ctx.Count("instance: mixed list skipped (the second comment alone already changes tokens or fails to print at that point)", c04MixedSkipped)
+		c04MixedSkipped = 0
 		return
 	}
 	if unit == len(ts) {
@@ -633,6 +639,30 @@ func c04Instance(cs c04Case, fail func(string, string, ...interface{}) core.Outc
 		if cs.Node == -1 {
 			break
 		}
+		if v := cs.Point - pi; v == 2000 || v == 3000 {
+			// the second comment alone must be printable here without changing the token stream (a line comment in
+			// the middle of an expression may not be: that is the caller's doing); then the block comment in front of
+			// it must be placed like a block comment that is alone
+			probe := cs
+			probe.Point += 2000
+			if o := c04Check(probe); !o.OK {
+				c04MixedSkipped++
+				return core.Outcome{OK: true}
+			}
+		}
+		if v := cs.Point - pi; v >= 2000 && v%1000 == 0 {
+			if v == 2000 || v == 3000 {
+				l := fmt.Sprintf("/*P%d:%s*/", pi, p.Name)
+				p.List.Append(l)
+				labels = append(labels, l)
+			}
+			l2 := fmt.Sprintf("// Q%d:%s", pi, p.Name)
+			if v == 3000 || v == 5000 {
+				l2 = fmt.Sprintf("/*R%d:%s\n*/", pi, p.Name)
+			}
+			p.List.Append(l2)
+			labels = append(labels, stripWS(l2)) // the comparison ignores white space inside comments
+		}
 		if cs.Point == -1 || cs.Point == pi || cs.Point == pi+1000 {
 			l := fmt.Sprintf("/*P%d:%s*/", pi, p.Name)
 			p.List.Append(l)
@@ -738,6 +768,12 @@ func c04Instance(cs c04Case, fail func(string, string, ...interface{}) core.Outc
 		switch {
 		case p.Name == "Start" && at != first:
 			return fail("instance-start-misplaced:"+tn, "%s.Start printed after %d tokens, the node's first token is number %d\n%s", tn, at, first, out)
+		case p.Name == "End" && at == lastMax+1 && cs.Point >= 2000 && c04TrailingGroupPostponed(n, f, pos, pi, p.Name):
+			// known finding C04-F1 (exact shape only: the unparenthesised result field of a signature, the block
+			// comment printed together with the line-breaking comment that follows it in the list, one token late)
+			o := fail("instance-end-misplaced:"+tn, "%s.End: the block comment is printed behind the opening brace together with the comment that follows it in the list\n%s", tn, out)
+			o.Known = "C04-F1-trailing-comment-group-of-result-field-postponed"
+			return o
 		case p.Name == "End" && (at < last || at > lastMax):
 			return fail("instance-end-misplaced:"+tn, "%s.End printed after %d tokens; the node's tokens end at %d and the next separately emitted token is number %d\n%s", tn, at, last, lastMax, out)
 		case p.Name != "Start" && p.Name != "End" && at == first && first < last && !c04PartAbsent(n, p.Name):
@@ -752,6 +788,34 @@ func c04Instance(cs c04Case, fail func(string, string, ...interface{}) core.Outc
 	}
 	return core.Outcome{OK: true}
 }
+
+// c04TrailingGroupPostponed recognises the one shape of known finding C04-F1: n is the field of an unparenthesised
+// result list of a function signature, and the block comment of the point is printed at the same token index as
+// the comment that follows it in the list.
+func c04TrailingGroupPostponed(n dst.Node, f *dst.File, pos map[string]int, pi int, name string) bool {
+	if !core.IsKnown("C04-F1-trailing-comment-group-of-result-field-postponed") {
+		return false
+	}
+	fld, ok := n.(*dst.Field)
+	if !ok {
+		return false
+	}
+	inResults := false
+	for _, m := range allNodes(f) {
+		if ft, ok := m.(*dst.FuncType); ok && ft.Results != nil && !ft.Results.Opening && len(ft.Results.List) > 0 && ft.Results.List[len(ft.Results.List)-1] == fld {
+			inResults = true
+		}
+	}
+	if !inResults {
+		return false
+	}
+	p := pos[fmt.Sprintf("/*P%d:%s*/", pi, name)]
+	q, okq := pos[stripWS(fmt.Sprintf("// Q%d:%s", pi, name))]
+	r, okr := pos[stripWS(fmt.Sprintf("/*R%d:%s\n*/", pi, name))]
+	return okq && q == p || okr && r == p
+}
+
+var c04MixedSkipped int64
 
 // c04Helpers: dstutil.Decorations and Node.Decorations() laws for every node type.
 func c04Helpers(fail func(string, string, ...interface{}) core.Outcome) core.Outcome {
